@@ -521,7 +521,7 @@ func checkMessageContentType(c *Ctx, rule, ifaceName, method string) {
 					continue
 				}
 				fromMessage := false
-				for _, l := range Origins(hm.Val) {
+				for _, l := range p.OriginsDeep(hm.Val) { // also through an accessor helper (refactoring B24_r1)
 					if l.Kind != "call" {
 						continue
 					}
